@@ -53,3 +53,13 @@ def memo_cut(ctx, cut_id, actual_terms, make):
 def numjac(f, x, eps=1e-6):
     """central finite-difference derivative of an elementwise native function"""
     return (f(x + eps) - f(x - eps)) / (2 * eps)
+
+
+def logs_cancel(h, ctx, label, total_ld):
+    """total_ld (a sum of +-log terms) == 0, stated as the polynomial identity  prod(num) == prod(den)"""
+    rest, numr, den = exp_of_loglin(total_ld)
+    rs = z3.simplify(rest)
+    if is_num(rs) and num(rs) == 0:
+        ensure(h, ctx, label, numr == den)
+    else:
+        ensure(h, ctx, label, total_ld == 0)
